@@ -47,11 +47,21 @@ pub fn gen(tier: &str, seed: u64, idx: u64, base: u64) -> Spec {
         ops.push(Op { kind: k0, slot: 0, goal: g, fault: None });
         // fault sequence: sometimes the retry is hit as well
         let second = if rng.coin(30) { Some(rng.range(1, 80) as u64) } else { None };
-        ops.push(Op { kind: OpKind::Solve, slot: 0, goal: g, fault: second });
-        if second.is_some() {
-            ops.push(Op { kind: OpKind::Solve, slot: 0, goal: g, fault: None });
+        // usually the crashed goal is retried first — but a retry of the very same goal can repair what the crash left
+        // behind, so 40 % of the histories go on with OTHER goals first (a dependent goal meeting the leftovers)
+        let retry_first = goals.len() < 2 || rng.coin(60);
+        if retry_first {
+            ops.push(Op { kind: OpKind::Solve, slot: 0, goal: g, fault: second });
+            if second.is_some() {
+                ops.push(Op { kind: OpKind::Solve, slot: 0, goal: g, fault: None });
+            }
+        } else {
+            let others: Vec<usize> = goals.iter().cloned().filter(|&x| x != g).collect();
+            for _ in 0..rng.range(1, 3) {
+                ops.push(Op { kind: OpKind::Solve, slot: 0, goal: *rng.pick(&others), fault: None });
+            }
         }
-        if goals.len() <= 14 && rng.coin(50) {
+        if goals.len() <= 14 && rng.coin(if retry_first { 50 } else { 75 }) {
             let mut all = goals.clone();
             rng.shuffle(&mut all);
             for goal in all {
